@@ -247,10 +247,11 @@ func indexedDiffers(a, b geojson.Object) bool {
 }
 
 func c08Gen(t *rapid.T) c08Case {
+	class := rapid.IntRange(0, 2).Draw(t, "optclass")
 	text := gj.Doc(t, gj.Opts{MaxDepth: 3, Noise: rapid.Bool().Draw(t, "noise"), Lattice: rapid.IntRange(0, 3).Draw(t, "lattice") > 0,
-		Mutations: rapid.SampledFrom([]int{0, 0, 0, 1}).Draw(t, "nmut")})
+		Mutations: rapid.SampledFrom([]int{0, 0, 0, 1}).Draw(t, "nmut"), RectBias: class == 1, LongBias: class == 0})
 	var o optsModel
-	switch rapid.IntRange(0, 2).Draw(t, "optclass") {
+	switch class {
 	case 0: // index options only
 		o = defaultOptsModel
 		o.IndexChildren = rapid.SampledFrom([]int{0, 1, 2, 3, 4, 64}).Draw(t, "ichildren")
